@@ -397,7 +397,23 @@ pub fn validate_amount_decimals(amount: f64, currency: &str) -> Result<(), Parse
 /// - Decimal precision exceeds currency limit (C03)
 pub fn parse_amount_with_currency(input: &str, currency: &str) -> Result<f64, ParseError> {
     let amount = parse_amount(input)?;
-    validate_amount_decimals(amount, currency)?;
+
+    // Count the decimals as written (trailing zeros aside): the float value cannot
+    // tell 1234567,89 from 1234567,8900000001
+    let max_decimals = get_currency_decimals(currency);
+    let decimal_places = match input.find([',', '.']) {
+        Some(pos) => input[pos + 1..].trim_end_matches('0').len(),
+        None => 0,
+    };
+    if decimal_places > max_decimals as usize {
+        return Err(ParseError::InvalidFormat {
+            message: format!(
+                "Amount has {} decimal places but currency {} allows maximum {} (Error code: C03)",
+                decimal_places, currency, max_decimals
+            ),
+        });
+    }
+
     Ok(amount)
 }
 
